@@ -82,6 +82,59 @@ struct TokTM
   ~TokTM () { tokhooks::dtor (this); }
 };
 
+// MA: nothrow move constructor, throwing move assignment (copyable).
+struct TokMA
+{
+  int v;
+  TokMA ()                       : v (0)   { tokhooks::ctor_default (this); }
+  explicit TokMA (int x)         : v (x)   { tokhooks::ctor_value (this); }
+  TokMA (const TokMA& o)         : v (o.v) { tokhooks::ctor_copy (this, &o, true); }
+  TokMA (TokMA&& o) noexcept     : v (o.v) { tokhooks::ctor_move (this, &o, false); o.v = MOVED_VALUE; }
+  TokMA& operator= (const TokMA& o)
+  { tokhooks::assign_copy (this, &o, true); v = o.v; return *this; }
+  TokMA& operator= (TokMA&& o) noexcept (false)
+  { tokhooks::assign_move (this, &o, true); int t = o.v; o.v = MOVED_VALUE; v = t; return *this; }
+  ~TokMA () { tokhooks::dtor (this); }
+};
+
+// MC: throwing move constructor, nothrow move assignment (copyable).
+struct TokMC
+{
+  int v;
+  TokMC ()                       : v (0)   { tokhooks::ctor_default (this); }
+  explicit TokMC (int x)         : v (x)   { tokhooks::ctor_value (this); }
+  TokMC (const TokMC& o)         : v (o.v) { tokhooks::ctor_copy (this, &o, true); }
+  TokMC (TokMC&& o) noexcept (false) : v (o.v)
+  { tokhooks::ctor_move (this, &o, true); o.v = MOVED_VALUE; }
+  TokMC& operator= (const TokMC& o)
+  { tokhooks::assign_copy (this, &o, true); v = o.v; return *this; }
+  TokMC& operator= (TokMC&& o) noexcept
+  { tokhooks::assign_move (this, &o, false); int t = o.v; o.v = MOVED_VALUE; v = t; return *this; }
+  ~TokMC () { tokhooks::dtor (this); }
+};
+
+// SW: nothrow moves, but an ADL swap that may throw.
+struct TokSW
+{
+  int v;
+  TokSW ()                       : v (0)   { tokhooks::ctor_default (this); }
+  explicit TokSW (int x)         : v (x)   { tokhooks::ctor_value (this); }
+  TokSW (const TokSW& o)         : v (o.v) { tokhooks::ctor_copy (this, &o, true); }
+  TokSW (TokSW&& o) noexcept     : v (o.v) { tokhooks::ctor_move (this, &o, false); o.v = MOVED_VALUE; }
+  TokSW& operator= (const TokSW& o)
+  { tokhooks::assign_copy (this, &o, true); v = o.v; return *this; }
+  TokSW& operator= (TokSW&& o) noexcept
+  { tokhooks::assign_move (this, &o, false); int t = o.v; o.v = MOVED_VALUE; v = t; return *this; }
+  ~TokSW () { tokhooks::dtor (this); }
+};
+inline void swap (TokSW& a, TokSW& b) noexcept (false)
+{
+  fault_point (FK_ELEM_SWAP);
+  if (! registry ().is_live (&a) || ! registry ().is_live (&b))
+    registry ().error ("swap of storage that holds no live element", &a);
+  int t = a.v; a.v = b.v; b.v = t;
+}
+
 // MO: move-only, nothrow move.
 struct TokMO
 {
@@ -138,6 +191,9 @@ SVMC_ELEM_COMPARE (TokTM)
 SVMC_ELEM_COMPARE (TokMO)
 SVMC_ELEM_COMPARE (TokMOT)
 SVMC_ELEM_COMPARE (TokCO)
+SVMC_ELEM_COMPARE (TokMA)
+SVMC_ELEM_COMPARE (TokMC)
+SVMC_ELEM_COMPARE (TokSW)
 SVMC_ELEM_COMPARE (Triv)
 
 template <typename T> struct ElemTraits;
@@ -158,6 +214,9 @@ SVMC_TOK_TRAITS (TokTM,  "TM",  true,  false)
 SVMC_TOK_TRAITS (TokMO,  "MO",  false, true)
 SVMC_TOK_TRAITS (TokMOT, "MOT", false, false)
 SVMC_TOK_TRAITS (TokCO,  "CO",  true,  false)
+SVMC_TOK_TRAITS (TokMA,  "MA",  true,  true)
+SVMC_TOK_TRAITS (TokMC,  "MC",  true,  false)
+SVMC_TOK_TRAITS (TokSW,  "SW",  true,  true)
 
 template <> struct ElemTraits<Triv>
 {
